@@ -148,6 +148,11 @@ def canon(e):
             if isinstance(n.func, ast.Name) and n.func.id in ('tuple', 'list', 'set', 'frozenset', 'sorted', 'sum', 'min', 'max', 'dict') and len(n.args) >= 1 \
                     and isinstance(n.args[0], ast.GeneratorExp):
                 n.args[0] = ast.ListComp(elt=n.args[0].elt, generators=n.args[0].generators)
+            if isinstance(n.func, ast.Name) and n.func.id == 'sum' and len(n.args) == 2 and not n.keywords and isinstance(n.args[1], ast.List) and not n.args[1].elts \
+                    and isinstance(n.args[0], ast.ListComp) and isinstance(n.args[0].elt, ast.ListComp):
+                # sum([[e for a in A] for b in B], [])  ==  [e for b in B for a in A]   (concatenation of the inner lists in order)
+                outer, inner = n.args[0], n.args[0].elt
+                return ast.ListComp(elt=inner.elt, generators=list(outer.generators) + list(inner.generators))
             if isinstance(n.func, ast.Name) and n.func.id == 'set' and len(n.args) == 1 and not n.keywords and isinstance(n.args[0], ast.ListComp):
                 return ast.SetComp(elt=n.args[0].elt, generators=n.args[0].generators)       # set([e for ..]) == {e for ..}
             return n
